@@ -492,7 +492,7 @@ func (g *Gen) uploadStep(offs map[int]int, recv map[int]string) {
 			}
 		case 1: // mount
 			src := g.pick([]string{"r1", "r2", "r3", "../x", "r1/../r2", "blobs"})
-			c := g.pick([]string{"aa", "b", "aab", "zz"})
+			c := g.pick([]string{"aa", "b", "aab", "zz", "~"}) // ~ : the empty blob (the digest every fresh digester starts with)
 			line := "UPOST " + repo + " mount=" + algo() + ":" + c + " from=" + src
 			if g.r.Intn(4) == 0 {
 				line += " digest=" + algo() + ":" + c + " body=" + c
@@ -1265,7 +1265,7 @@ func (g *Gen) isolationStep(offs map[int]int, recv map[int]string) {
 	case 0, 1:
 		g.pushBlob(repo)
 	case 2: // mount from another repository
-		c := g.pick([]string{"c1", "c2", "l1", "zz", "outsidesecret", "outsidesecret"})
+		c := g.pick([]string{"c1", "c2", "l1", "zz", "~", "outsidesecret", "outsidesecret"})
 		g.noteSession(g.emit("UPOST " + repo + " mount=sha256:" + c + " from=" + g.pick(append(append([]string{}, g.repos...), "../r1", "r1/../r2", "..", "r1/", "/r1",
 			"../outside", "r1/../../outside", "a/../../outside", "r1/sub/../../../outside", "r2/../..//outside"))))
 		if c == "outsidesecret" && g.r.Intn(2) == 0 {
